@@ -126,3 +126,234 @@ func runC09Loop(e *Env) {
 		}
 	}
 }
+
+// C09.share — a shared observable connects its source with the context of the subscriber that causes the
+// connection: after a reset (completion, error, or the last subscriber leaving) the next connection is made
+// with the context of the subscriber that causes THAT connection, not with a context kept from an earlier one.
+func init() {
+	Register(&Family{
+		Name:   "C09.share",
+		Props:  []string{"C09"},
+		Weight: 1,
+		Gen: func(g *Gen) *Scn {
+			sc := &Scn{Family: "C09.share"}
+			sc.Sub = g.Pick("Share", "ShareReplay", "ShareWithConfig")
+			mode := g.Pick("sync", "async")
+			sc.Sources = []SrcSpec{{Mode: mode, Script: genScript(g, 10, 3, "CCE", false)}}
+			sc.SetInt("end", g.Intn(2)) // 0: the first connection ends by itself, 1: its only subscriber leaves
+			return sc
+		},
+		Run: func(e *Env) {
+			sc := e.Sc
+			spec := sc.Sources[0]
+			if sc.Int("end", 0) == 1 {
+				spec.Script = []Step{{K: "N", V: 10}} // stays open: the connection ends when the subscriber leaves
+				spec.Mode = "async"
+			}
+			s := e.NewSrc(spec)
+			var o ro.Observable[int]
+			switch sc.Sub {
+			case "Share":
+				o = ro.Share[int]()(s.Obs())
+			case "ShareReplay":
+				o = ro.ShareReplay[int](1)(s.Obs())
+			default:
+				o = ro.ShareWithConfig(ro.ShareConfig[int]{Connector: func() ro.Subject[int] { return ro.NewPublishSubject[int]() }, ResetOnError: true, ResetOnComplete: true, ResetOnRefCountZero: true})(s.Obs())
+			}
+			type seen struct {
+				who interface{}
+				nil bool
+			}
+			var got [2][]seen
+			mk := func(i int) ro.Observer[int] {
+				rec := func(ctx context.Context) {
+					if ctx == nil {
+						got[i] = append(got[i], seen{nil: true})
+						return
+					}
+					got[i] = append(got[i], seen{who: ctx.Value(kC09Sub)})
+				}
+				return ro.NewObserverWithContext(
+					func(ctx context.Context, v int) { rec(ctx) },
+					func(ctx context.Context, err error) { rec(ctx) },
+					func(ctx context.Context) { rec(ctx) },
+				)
+			}
+			ctxA := context.WithValue(context.Background(), kC09Sub, "A")
+			ctxB := context.WithValue(context.Background(), kC09Sub, "B")
+			var subA ro.Subscription
+			doneA := false
+			e.Go("subscriber-A", func() { subA = o.SubscribeWithContext(ctxA, mk(0)); doneA = true })
+			e.SettleFor(20 * Unit)
+			if e.K.Capped() || !doneA {
+				return
+			}
+			if sc.Int("end", 0) == 1 {
+				e.Go("unsubscriber-A", func() { subA.Unsubscribe() })
+				e.SettleFor(20 * Unit)
+			}
+			if s.Live != 0 || e.K.Capped() {
+				return // the first connection is still up (ShareReplay keeps it on completion by design): no second connection to judge
+			}
+			before := s.Subs
+			e.Go("subscriber-B", func() { o.SubscribeWithContext(ctxB, mk(1)) })
+			e.SettleFor(20 * Unit)
+			if e.K.Capped() || s.Subs == before {
+				return // no new connection was made (replayed execution): nothing to judge
+			}
+			describe := func() string {
+				var cs []string
+				for i, c := range s.Ctxs {
+					if c == nil {
+						cs = append(cs, fmt.Sprintf("#%d:nil", i))
+					} else {
+						cs = append(cs, fmt.Sprintf("#%d:%v", i, c.Value(kC09Sub)))
+					}
+				}
+				return fmt.Sprintf("%s: the source was connected with the contexts of %v; subscriber A (context A) saw %v, subscriber B (context B) saw %v", sc.Sub, cs, got[0], got[1])
+			}
+			c := s.Ctxs[len(s.Ctxs)-1]
+			if c == nil {
+				e.Violate("C09", "nil-ctx:"+sc.Sub+":subscribe", "the source was connected with a nil context: "+describe())
+				return
+			}
+			if c.Value(kC09Sub) != "B" {
+				e.Violate("C09", "stale-connection-ctx:"+sc.Sub, "the second connection was not made with the context of the subscriber that caused it: "+describe())
+			}
+			for _, g := range got[1] {
+				if g.nil {
+					e.Violate("C09", "nil-ctx:"+sc.Sub+":callback", "subscriber B received a nil context: "+describe())
+				} else if g.who != "B" {
+					e.Violate("C09", "stale-connection-ctx:"+sc.Sub, "subscriber B, alone on a fresh connection, received notifications carrying another subscription's values: "+describe())
+				}
+			}
+		},
+	})
+}
+
+// C09.groupby — the context returned by GroupBy's key selector travels with the item into its group, for the
+// item that opens a group and for every later item of that group alike.
+func init() {
+	Register(&Family{
+		Name:   "C09.groupby",
+		Props:  []string{"C09"},
+		Weight: 1,
+		Gen: func(g *Gen) *Scn {
+			sc := &Scn{Family: "C09.groupby"}
+			sc.Sub = g.Pick("GroupByWithContext", "GroupByIWithContext")
+			sc.SetInt("k", g.Range(1, 3))
+			sc.Sources = []SrcSpec{{Mode: g.Pick("sync", "async"), Script: genScript(g, 10, 6, "CCE-", false)}}
+			return sc
+		},
+		Run: func(e *Env) {
+			sc := e.Sc
+			k := sc.Int("k", 2)
+			s := e.NewSrc(sc.Sources[0])
+			mark := func(ctx context.Context, v int) context.Context {
+				if ctx == nil {
+					ctx = context.Background()
+				}
+				return context.WithValue(ctx, kC09Run, v)
+			}
+			var groups ro.Observable[ro.Observable[int]]
+			if sc.Sub == "GroupByWithContext" {
+				groups = ro.GroupByWithContext(func(ctx context.Context, v int) (context.Context, int) { return mark(ctx, v), v % k })(s.Obs())
+			} else {
+				groups = ro.GroupByIWithContext(func(ctx context.Context, v int, _ int64) (context.Context, int) { return mark(ctx, v), v % k })(s.Obs())
+			}
+			subCtx := context.WithValue(context.Background(), kC09Sub, "sub")
+			var bad []string
+			obs := ro.NewObserverWithContext(
+				func(ctx context.Context, v int) {
+					switch {
+					case ctx == nil:
+						bad = append(bad, fmt.Sprintf("N%d:nil", v))
+					case ctx.Value(kC09Run) != v:
+						bad = append(bad, fmt.Sprintf("N%d:selector-marker=%v", v, ctx.Value(kC09Run)))
+					case ctx.Value(kC09Sub) != "sub":
+						bad = append(bad, fmt.Sprintf("N%d:subscription-marker-lost", v))
+					}
+				},
+				func(ctx context.Context, err error) {
+					if ctx == nil {
+						bad = append(bad, "E:nil")
+					}
+				},
+				func(ctx context.Context) {
+					if ctx == nil {
+						bad = append(bad, "C:nil")
+					}
+				},
+			)
+			e.Go("subscriber", func() { ro.MergeAll[int]()(groups).SubscribeWithContext(subCtx, obs) })
+			e.SettleFor(50 * Unit)
+			if e.K.Capped() {
+				return
+			}
+			if len(bad) > 0 {
+				e.Violate("C09", "selector-ctx-lost:"+sc.Sub, fmt.Sprintf("%s(v%%%d) | MergeAll over [%s]: the selector returns the item's context enriched with the item's own value, but these deliveries do not carry it: %v", sc.Sub, k, traceN(scriptToN(sc.Sources[0].Script)), bad))
+			}
+		},
+	})
+}
+
+// C09.itemcancel — ThrowOnContextCancel turns a cancelled ITEM context into an error that still travels with
+// that item's context (whatever was attached upstream stays visible), whether the context was already done
+// when the item arrived or became done while the item was being delivered downstream.
+func init() {
+	Register(&Family{
+		Name:   "C09.itemcancel",
+		Props:  []string{"C09"},
+		Weight: 1,
+		Gen: func(g *Gen) *Scn {
+			sc := &Scn{Family: "C09.itemcancel"}
+			sc.Sub = g.Pick("before", "during")
+			sc.Sources = []SrcSpec{{Mode: g.Pick("sync", "async"), Script: genScript(g, 10, 4, "C-", false)}}
+			sc.SetInt("at", g.Range(0, 3))
+			return sc
+		},
+		Run: func(e *Env) {
+			sc := e.Sc
+			s := e.NewSrc(sc.Sources[0])
+			at := sc.Int("at", 0)
+			var cancels []context.CancelFunc
+			o := ro.Pipe3(s.Obs(),
+				ro.ContextWithValue[int](kC09Run, "mid"),
+				ro.ContextMapI[int](func(ctx context.Context, i int64) context.Context {
+					c, cancel := context.WithCancel(ctx)
+					cancels = append(cancels, cancel)
+					if sc.Sub == "before" && int(i) == at {
+						cancel()
+					}
+					return c
+				}),
+				ro.ThrowOnContextCancel[int](),
+			)
+			n := 0
+			var errCtx context.Context
+			gotErr := false
+			obs := ro.NewObserverWithContext(
+				func(ctx context.Context, v int) {
+					if sc.Sub == "during" && n == at && n < len(cancels) {
+						cancels[n]()
+					}
+					n++
+				},
+				func(ctx context.Context, err error) { errCtx, gotErr = ctx, true },
+				func(ctx context.Context) {},
+			)
+			subCtx := context.WithValue(context.Background(), kC09Sub, "sub")
+			e.Go("subscriber", func() { o.SubscribeWithContext(subCtx, obs) })
+			e.SettleFor(50 * Unit)
+			if e.K.Capped() || !gotErr {
+				return
+			}
+			switch {
+			case errCtx == nil:
+				e.Violate("C09", "nil-ctx:ThrowOnContextCancel:E", "the cancellation error was delivered with a nil context")
+			case errCtx.Value(kC09Run) != "mid" || errCtx.Value(kC09Sub) != "sub":
+				e.Violate("C09", "item-ctx-lost:ThrowOnContextCancel", fmt.Sprintf("item #%d's context was cancelled %s its delivery; the resulting error travels with a context that lost the values attached upstream (mid-pipeline marker %v, subscription marker %v)", at, sc.Sub, errCtx.Value(kC09Run), errCtx.Value(kC09Sub)))
+			}
+		},
+	})
+}
